@@ -31,7 +31,17 @@ def nontrivial_plan(plan):
 
 def call_scheduler(sched, cfg):
     import speckit.schedulers as S
-    return getattr(S, gen.SCHED_FUNC[sched])(**gen.sched_kwargs(cfg))
+    kw = gen.sched_kwargs(cfg)
+    form = cfg.get("fs_form")
+    if form == "np.float32" and float(np.float32(kw["fs"])) == kw["fs"]:
+        kw["fs"] = np.float32(kw["fs"])      # exactly representable: same value, other dtype
+    elif form == "np.float64":
+        kw["fs"] = np.float64(kw["fs"])
+    elif form == "int" and float(int(kw["fs"])) == kw["fs"]:
+        kw["fs"] = int(kw["fs"])
+    if form and cfg.get("N_form") == "np.int64":
+        kw["N"] = np.int64(kw["N"])
+    return getattr(S, gen.SCHED_FUNC[sched])(**kw)
 
 
 def check_plan(pid, plan, cfg, sched, rec, where):
